@@ -7,7 +7,7 @@
 //!                                                   "DONE <json>" after every parse (a crash leaves a dangling CASE)
 //!   c02 search --seed S --n N [--budget-ms T]      -> spawns `batch`/`run` children, JSON lines of violations + summary
 //!   c02 one    --case-json '{...}'                 -> replay one case in a child process
-use emmylua_parser::{LuaFeaturesSet, LuaLanguageLevel, LuaParser, ParserConfig};
+use emmylua_parser::{LuaFeaturesSet, LuaLanguageLevel, LuaLexer, LuaParseErrorKind, LuaParser, LuaTokenKind, ParserConfig, Reader};
 use serde_json::{Value, json};
 use std::collections::{HashMap, HashSet};
 use std::io::Write;
@@ -140,6 +140,7 @@ pub struct Outcome {
     pub depth: u64,
     pub tdepth: u64,
     pub steps: u64,
+    pub ntok: u64,
     pub text_ok: bool,
     pub panicked: Option<String>,
 }
@@ -180,17 +181,42 @@ pub fn parse_on_thread(text: String, level: String, doc: bool, stack: usize) -> 
                 (n, micros, ok)
             });
             let (depth, tdepth, steps) = depth_counters();
+            // number of tokens of the main lexer (the token pump works on these)
+            let ntok = vh_common::guarded(|| LuaLexer::new(Reader::new(&text), config(&level, doc).lexer_config(), None).tokenize().len() as u64).unwrap_or(0);
             match r {
-                Ok((n, micros, ok)) => Outcome { errors: n, micros, depth, tdepth, steps, text_ok: ok, panicked: None },
-                Err(m) => Outcome { errors: 0, micros: t0.elapsed().as_micros(), depth, tdepth, steps, text_ok: false, panicked: Some(m) },
+                Ok((n, micros, ok)) => Outcome { errors: n, micros, depth, tdepth, steps, ntok, text_ok: ok, panicked: None },
+                Err(m) => Outcome { errors: 0, micros: t0.elapsed().as_micros(), depth, tdepth, steps, ntok, text_ok: false, panicked: Some(m) },
             }
         })
         .expect("spawn");
-    h.join().unwrap_or(Outcome { errors: 0, micros: 0, depth: 0, tdepth: 0, steps: 0, text_ok: false, panicked: Some("thread died".into()) })
+    h.join().unwrap_or(Outcome { errors: 0, micros: 0, depth: 0, tdepth: 0, steps: 0, ntok: 0, text_ok: false, panicked: Some("thread died".into()) })
 }
 
 fn outcome_json(o: &Outcome) -> Value {
-    json!({"errors": o.errors, "us": o.micros as u64, "depth": o.depth, "tdepth": o.tdepth, "steps": o.steps, "text_ok": o.text_ok, "panic": o.panicked})
+    json!({"errors": o.errors, "us": o.micros as u64, "depth": o.depth, "tdepth": o.tdepth, "steps": o.steps, "ntok": o.ntok,
+           "text_ok": o.text_ok, "panic": o.panicked, "limit": emmylua_parser::verif_depth::max_nesting_level()})
+}
+
+pub fn tok_name(k: LuaTokenKind) -> &'static str {
+    use LuaTokenKind::*;
+    match k {
+        TkName => "TName", TkInt => "TInt", TkFloat => "TFloat", TkString => "TString", TkLongString => "TLongString",
+        TkNil => "TNil", TkTrue => "TTrue", TkFalse => "TFalse", TkDots => "TDots", TkAnd => "TAnd", TkOr => "TOr",
+        TkNot => "TNot", TkBreak => "TBreak", TkDo => "TDo", TkElse => "TElse", TkElseIf => "TElseIf", TkEnd => "TEnd",
+        TkFor => "TFor", TkFunction => "TFunction", TkGoto => "TGoto", TkIf => "TIf", TkIn => "TIn", TkLocal => "TLocal",
+        TkRepeat => "TRepeat", TkReturn => "TReturn", TkThen => "TThen", TkUntil => "TUntil", TkWhile => "TWhile",
+        TkPlus => "TPlus", TkMinus => "TMinus", TkMul => "TMul", TkDiv => "TDiv", TkIDiv => "TIDiv", TkMod => "TMod",
+        TkPow => "TPow", TkLen => "TLen", TkBitAnd => "TBitAnd", TkBitOr => "TBitOr", TkBitXor => "TBitXor",
+        TkShl => "TShl", TkShr => "TShr", TkConcat => "TConcat", TkLt => "TLt", TkLe => "TLe", TkGt => "TGt",
+        TkGe => "TGe", TkEq => "TEq", TkNe => "TNe", TkAssign => "TAssign", TkLeftParen => "TLParen",
+        TkRightParen => "TRParen", TkLeftBrace => "TLBrace", TkRightBrace => "TRBrace", TkLeftBracket => "TLBracket",
+        TkRightBracket => "TRBracket", TkSemicolon => "TSemi", TkComma => "TComma", TkDot => "TDot", TkColon => "TColon",
+        TkDbColon => "TDbColon",
+        _ => "TOther",
+    }
+}
+fn is_trivia(k: LuaTokenKind) -> bool {
+    matches!(k, LuaTokenKind::TkWhitespace | LuaTokenKind::TkEndOfLine | LuaTokenKind::TkShortComment | LuaTokenKind::TkLongComment | LuaTokenKind::TkShebang)
 }
 
 // ------------------------------------------------------------------------------------------------
@@ -367,7 +393,7 @@ fn gen_case(rng: &mut Rng, mode: &str, stds: &[(String, String)]) -> (Value, Str
                 0 => rng.range(1, 64),
                 1 => rng.range(64, 400),
                 2 => rng.range(400, 3000),
-                _ => rng.range(3000, 40000),
+                _ => rng.range(3000, 12000),
             };
             (json!({"mode": "ladder", "kind": k, "n": n}), ladder(k, n))
         }
@@ -570,26 +596,34 @@ fn corr(a: &Args) {
     let n = a.usize("n", 200);
     let maxdepth = a.usize("maxdepth", 40);
     let mut out = std::io::stdout().lock();
-    let mut emit = |ws: Vec<usize>| {
+    let mut emit = |ws: Vec<usize>, level: &str| {
         let mut e = "1".to_string();
         for &w in &ws {
             e = wrap(WRAPS[w], &e);
         }
         let text = format!("local x = {}\n", e);
-        let o = parse_on_thread(text, "5.4".into(), true, 64 * 1024 * 1024);
-        let _ = writeln!(out, "{}", json!({"wraps": ws, "depth": o.depth, "errors": o.errors, "panic": o.panicked}));
+        // token kinds (trivia removed) and lexer errors of the main lexer
+        let mut lex_errs = Vec::new();
+        let toks: Vec<&'static str> = LuaLexer::new(Reader::new(&text), config(level, true).lexer_config(), Some(&mut lex_errs))
+            .tokenize().iter().filter(|t| !is_trivia(t.kind)).map(|t| tok_name(t.kind)).collect();
+        emmylua_parser::verif_depth::reset();
+        let tree = LuaParser::parse(&text, config(level, true));
+        let depth = emmylua_parser::verif_depth::high_water();
+        let errs = tree.get_errors().iter().filter(|e| e.kind == LuaParseErrorKind::SyntaxError).count();
+        let _ = writeln!(out, "{}", json!({"wraps": ws, "level": level, "toks": toks, "errs": errs > 0, "depth": depth,
+            "limit": emmylua_parser::verif_depth::max_nesting_level()}));
     };
-    // corpus first: pure ladders of every wrapper at several heights, then the empty recipe
-    emit(vec![]);
+    // corpus first: the empty recipe, pure ladders of every wrapper at several heights (below and above the limit)
+    emit(vec![], "5.4");
     for w in 0..WRAPS.len() {
-        for k in [1usize, 2, 3, 7, 20] {
-            emit(vec![w; k]);
+        for k in [1usize, 2, 3, 7, 20, 99, 120, 197, 198, 199, 230] {
+            emit(vec![w; k], "5.4");
         }
     }
-    for _ in 0..n {
+    for i in 0..n {
         let d = rng.range(1, maxdepth);
         let ws: Vec<usize> = (0..d).map(|_| rng.below(WRAPS.len())).collect();
-        emit(ws);
+        emit(ws, ["5.1", "5.2", "5.3", "5.4"][i % 4]);
     }
 }
 
@@ -617,7 +651,8 @@ fn batch(a: &Args) {
         let len = text.len();
         let oc = parse_on_thread(text, level.to_string(), doc, stack);
         let mut o = so.lock();
-        let _ = writeln!(o, "DONE {} {}", i, json!({"len": len, "errors": oc.errors, "us": oc.micros as u64, "text_ok": oc.text_ok, "panic": oc.panicked, "depth": oc.depth}));
+        let _ = writeln!(o, "DONE {} {}", i, json!({"len": len, "errors": oc.errors, "us": oc.micros as u64, "text_ok": oc.text_ok, "panic": oc.panicked, "depth": oc.depth,
+            "tdepth": oc.tdepth, "steps": oc.steps, "ntok": oc.ntok, "limit": emmylua_parser::verif_depth::max_nesting_level()}));
         let _ = o.flush();
     }
 }
@@ -685,19 +720,36 @@ fn run_batch(mode: &str, seed: u64, n: usize, budget: Duration) -> BatchResult {
     BatchResult { done, dangling: pending, end }
 }
 
-/// shrink a crashing ladder to its threshold; other crashing cases are reported as they are
+/// A crashing ladder.  Ladders whose descent does not recurse (left-associative chains, suffix chains, doc unions ...)
+/// only make the TREE deep; when such a ladder parses fine on a 512 MiB stack with a small nesting level, the crash
+/// is rowan's recursive drop / node_hash of the green tree (the known finding), otherwise it is a new finding.
 fn report_crash(case: &Value, how: &str, out: &mut Vec<Value>) {
     let level = case["level"].as_str().unwrap_or("5.5").to_string();
+    let doc = case["doc"].as_bool().unwrap_or(true);
     if case["mode"] == "ladder" {
         let kind = case["kind"].as_str().unwrap_or("paren").to_string();
         let n = case["n"].as_u64().unwrap_or(0) as usize;
-        let (thr, _) = crash_threshold(&kind, &level, STACK_2MIB, n, Duration::from_secs(30));
-        let thr = thr.unwrap_or(n);
+        let rec = KINDS.iter().find(|k| k.0 == kind).map(|k| k.1).unwrap_or(true);
+        if !rec {
+            let big = run_case_in_child(case, &level, doc, 512 * 1024 * 1024, Duration::from_secs(600));
+            if let ChildEnd::Ok(v) = big {
+                let d = v["depth"].as_u64().unwrap_or(u64::MAX);
+                let td = v["tdepth"].as_u64().unwrap_or(u64::MAX);
+                if d <= 8 && td <= 8 {
+                    out.push(json!({
+                        "signature": "deep-tree:rowan-recursion",
+                        "what": format!("flat chain ladder of kind {} with {} links parses at nesting level {} but ends the process ({}) on a 2 MiB stack: \
+                                        the green tree is {} levels deep and rowan drops / hashes it recursively", kind, n, d.max(td), how, n),
+                        "case": {"mode": "ladder", "kind": kind, "n": n, "level": level, "doc": doc},
+                    }));
+                    return;
+                }
+            }
+        }
         out.push(json!({
             "signature": format!("stack-overflow:ladder:{}", kind),
-            "what": format!("nesting ladder of kind {} deeper than about {} levels ends the process ({}) on a 2 MiB stack", kind, thr, how),
-            "case": {"mode": "ladder", "kind": kind, "n": thr, "level": level, "doc": case["doc"]},
-            "threshold": thr,
+            "what": format!("nesting ladder of kind {} with {} levels ends the process ({}) on a 2 MiB stack", kind, n, how),
+            "case": {"mode": "ladder", "kind": kind, "n": n, "level": level, "doc": doc},
         }));
     } else {
         out.push(json!({
@@ -705,6 +757,23 @@ fn report_crash(case: &Value, how: &str, out: &mut Vec<Value>) {
             "what": format!("parsing ends the process ({}) on a 2 MiB stack", how),
             "case": case,
         }));
+    }
+}
+
+/// checks on one finished parse (deterministic counters of the hook)
+fn check_obs(case: &Value, v: &Value, out: &mut Vec<Value>) {
+    let limit = v["limit"].as_u64().unwrap_or(200);
+    let (d, td) = (v["depth"].as_u64().unwrap_or(0), v["tdepth"].as_u64().unwrap_or(0));
+    if d > limit || td > limit {
+        out.push(json!({"signature": "nesting-level-above-limit", "what": format!("nesting level {} / type level {} above the limit {}", d, td, limit), "case": case}));
+    }
+    let (steps, ntok) = (v["steps"].as_u64().unwrap_or(0), v["ntok"].as_u64().unwrap_or(0));
+    // bump costs 2 per token advanced, every peek at most one more trivia run: <= 4 reads per token (+ slack for the end)
+    if steps > 4 * ntok + 64 {
+        out.push(json!({"signature": "token-pump-superlinear", "what": format!("{} token-array reads for {} tokens", steps, ntok), "case": case}));
+    }
+    if v["text_ok"] == json!(false) && v["panic"].is_null() {
+        out.push(json!({"signature": "tree-text-longer-than-input", "what": "tree text range exceeds the input", "case": case}));
     }
 }
 
@@ -718,86 +787,85 @@ fn search(a: &Args) {
     let mut distinct: HashSet<u64> = HashSet::new();
     let mut cases = 0u64;
     let mut max_us_per_kb = 0f64;
+    let mut max_steps_per_tok = 0f64;
     let hash = |v: &Value| -> u64 {
         use std::hash::{Hash, Hasher};
         let mut h = std::collections::hash_map::DefaultHasher::new();
         v.to_string().hash(&mut h);
         h.finish()
     };
+    // wall-clock budgets are generous (the machine may be heavily loaded): a hang, not slowness, is what they catch
+    let budget_for = |len: usize| Duration::from_millis(90_000 + (len as u64) / 5);
 
-    // 1. ladders of every kind at fixed rungs, every one in its own child (2 MiB, wall-clock budget)
-    let rungs: &[usize] = if deep { &[100, 190, 1000, 5000, 20000, 100000, 400000] } else { &[100, 190, 1000, 20000, 100000] };
-    let mut crashed_kinds: HashSet<String> = HashSet::new();
-    for (kind, _rec) in KINDS {
-        for &n in rungs {
-            if crashed_kinds.contains(*kind) {
+    // 1. ladders of every kind at fixed rungs, each in its own child (2 MiB stack, wall-clock budget)
+    let rec_rungs: &[usize] = if deep { &[150, 1000, 20000, 100000, 400000] } else { &[150, 1000, 30000] };
+    let chain_rungs: &[usize] = if deep { &[2000, 10000, 30000, 200000] } else { &[2000, 30000] };
+    for (kind, rec) in KINDS {
+        let mut stop = false;
+        for &n in if *rec { rec_rungs } else { chain_rungs } {
+            if stop {
                 continue;
             }
             let level = if *kind == "ternary" { "jit" } else { "5.5" };
             let case = json!({"mode": "ladder", "kind": kind, "n": n, "level": level, "doc": true});
             cases += 1;
-            *dist.entry(format!("ladder:{}", bucket(n))).or_insert(0) += 1;
+            *dist.entry(format!("ladder:{}:{}", if *rec { "recursive" } else { "chain" }, bucket(n))).or_insert(0) += 1;
             distinct.insert(hash(&case));
-            // budget: linear in size with a generous constant (2 s + 40 us per byte)
             let len = ladder(kind, n).len();
-            let budget = Duration::from_millis(2000 + (len as u64) / 25);
+            let budget = budget_for(len);
             match run_case_in_child(&case, level, true, STACK_2MIB, budget) {
                 ChildEnd::Ok(v) => {
+                    check_obs(&case, &v, &mut viol);
                     let us = v["us"].as_u64().unwrap_or(0) as f64;
                     if len > 20000 {
                         max_us_per_kb = max_us_per_kb.max(us / (len as f64 / 1024.0));
                     }
-                    if v["text_ok"] == json!(false) {
-                        viol.push(json!({"signature": "tree-text-longer-than-input", "what": "tree text range exceeds the input", "case": case}));
+                    let nt = v["ntok"].as_u64().unwrap_or(0) as f64;
+                    if nt > 100.0 {
+                        max_steps_per_tok = max_steps_per_tok.max(v["steps"].as_u64().unwrap_or(0) as f64 / nt);
                     }
                 }
                 ChildEnd::Crash(how) => {
-                    crashed_kinds.insert(kind.to_string());
+                    stop = true;
                     report_crash(&case, &how, &mut viol);
                 }
                 ChildEnd::Timeout => {
-                    crashed_kinds.insert(kind.to_string());
+                    stop = true;
                     viol.push(json!({"signature": format!("timeout:ladder:{}", kind),
                         "what": format!("ladder of kind {} with {} levels ({} bytes) did not parse within {} ms", kind, n, len, budget.as_millis()), "case": case}));
                 }
                 ChildEnd::Panic(p) => {
-                    crashed_kinds.insert(kind.to_string());
+                    stop = true;
                     viol.push(json!({"signature": format!("panic:ladder:{}", kind), "what": format!("panic: {}", p), "case": case}));
                 }
             }
         }
     }
 
-    // 2. huge flat inputs: time must stay linear (budget proportional to size)
-    let flat_sizes: &[usize] = if deep { &[20000, 100000, 300000] } else { &[20000, 100000] };
+    // 2. huge flat inputs: must parse within a budget proportional to their size; the token pump must stay linear
+    let flat_sizes: &[usize] = if deep { &[20000, 100000, 300000] } else { &[30000] };
     for shape in 0..8usize {
-        let mut per_byte: Vec<f64> = Vec::new();
         for &stmts in flat_sizes {
             let case = json!({"mode": "flat", "shape": shape, "stmts": stmts, "level": "5.5", "doc": true});
             let len = gen_flat(shape, stmts).len();
             cases += 1;
             *dist.entry("flat".into()).or_insert(0) += 1;
             distinct.insert(hash(&case));
-            let budget = Duration::from_millis(3000 + (len as u64) / 25);
+            let budget = budget_for(len);
             match run_case_in_child(&case, "5.5", true, STACK_2MIB, budget) {
                 ChildEnd::Ok(v) => {
+                    check_obs(&case, &v, &mut viol);
                     let us = v["us"].as_u64().unwrap_or(0) as f64;
-                    per_byte.push(us / len as f64);
                     max_us_per_kb = max_us_per_kb.max(us / (len as f64 / 1024.0));
+                    let nt = v["ntok"].as_u64().unwrap_or(0) as f64;
+                    if nt > 100.0 {
+                        max_steps_per_tok = max_steps_per_tok.max(v["steps"].as_u64().unwrap_or(0) as f64 / nt);
+                    }
                 }
                 ChildEnd::Crash(how) => report_crash(&case, &how, &mut viol),
                 ChildEnd::Timeout => viol.push(json!({"signature": format!("timeout:flat:{}", shape),
                     "what": format!("flat input shape {} with {} statements ({} bytes) did not parse within {} ms", shape, stmts, len, budget.as_millis()), "case": case})),
                 ChildEnd::Panic(p) => viol.push(json!({"signature": format!("panic:flat:{}", shape), "what": format!("panic: {}", p), "case": case})),
-            }
-        }
-        // super-linearity: time per byte at the largest size more than 8x the smallest measured (and above noise)
-        if per_byte.len() >= 2 {
-            let (first, last) = (per_byte[0], per_byte[per_byte.len() - 1]);
-            if last > 8.0 * first.max(0.02) {
-                viol.push(json!({"signature": format!("superlinear:flat:{}", shape),
-                    "what": format!("time per byte grows from {:.3} us to {:.3} us between {} and {} statements", first, last, flat_sizes[0], flat_sizes[flat_sizes.len() - 1]),
-                    "case": {"mode": "flat", "shape": shape, "stmts": flat_sizes[flat_sizes.len() - 1], "level": "5.5", "doc": true}}));
             }
         }
     }
@@ -809,7 +877,7 @@ fn search(a: &Args) {
     for b in 0..nb {
         let mode = modes[b % modes.len()];
         let bseed = rng.next();
-        let budget = Duration::from_secs(if mode == "ladder" || mode == "mutant" { 120 } else { 60 });
+        let budget = Duration::from_secs(600);
         let r = run_batch(mode, bseed, per_batch, budget);
         for (c, o) in &r.done {
             cases += 1;
@@ -821,14 +889,8 @@ fn search(a: &Args) {
             if let Some(p) = o["panic"].as_str() {
                 viol.push(json!({"signature": format!("panic:{}", mode), "what": format!("panic: {}", p), "case": c}));
             }
-            if o["text_ok"] == json!(false) && o["panic"].is_null() {
-                viol.push(json!({"signature": "tree-text-longer-than-input", "what": "tree text range exceeds the input", "case": c}));
-            }
+            check_obs(c, o, &mut viol);
             let us = o["us"].as_u64().unwrap_or(0);
-            // per-case time bound: 0.5 s + 40 us/byte
-            if us > 500_000 + 40 * len {
-                viol.push(json!({"signature": format!("slow:{}", mode), "what": format!("{} us for {} bytes", us, len), "case": c}));
-            }
             if len > 20000 {
                 max_us_per_kb = max_us_per_kb.max(us as f64 / (len as f64 / 1024.0));
             }
@@ -849,12 +911,12 @@ fn search(a: &Args) {
 
     let mut seen = HashSet::new();
     for v in &viol {
-        // one line per signature + case
         let key = format!("{}|{}", v["signature"], v["case"]);
         if seen.insert(key) {
             println!("{}", v);
         }
     }
     println!("{}", json!({"summary": {"cases": cases, "distinct_nontrivial": distinct.len(), "distribution": dist,
-        "max_us_per_KiB_on_inputs_over_20KB": (max_us_per_kb * 100.0).round() / 100.0, "violations": viol.len()}}));
+        "max_cpu_us_per_KiB_on_inputs_over_20KB": (max_us_per_kb * 100.0).round() / 100.0,
+        "max_token_reads_per_token": (max_steps_per_tok * 100.0).round() / 100.0, "violations": viol.len()}}));
 }
